@@ -14,7 +14,8 @@ MUST_HIT = ['IdFresh.instance-attribute', 'Generator.user-source-sequence', 'Gen
             'Generator.integer-sequence', 'UnknownType.rejected', 'Referential.argument',
             'Schema.association-formalized-after-creations', 'Schema.attribute-replaced',
             'Schema.attribute-added', 'Schema.attribute-removed', 'Generator.drawn-by-for-break',
-            'Generator.drawn-by-islice', 'Generator.drawn-by-zip', 'Generator.drawn-by-next(iter())']
+            'Generator.drawn-by-islice', 'Generator.drawn-by-zip', 'Generator.drawn-by-next(iter())',
+            'IdFresh.peeked-id-given-explicitly']
 MUST_REACH = ['xtuml/meta.py:MetaClass.default_value', 'xtuml/meta.py:MetaClass.new',
               'xtuml/tools.py:IdGenerator.peek', 'xtuml/tools.py:IdGenerator.next',
               'xtuml/tools.py:UUIDGenerator.readfunc', 'xtuml/tools.py:IntegerGenerator.readfunc']
@@ -27,7 +28,7 @@ RULE = ('random schemas (1-3 classes, 1-7 attributes of the five core types in l
         'random keyword subset (random spelling) and the rest omitted, interleaved with peek()/next() '
         'on the generator; in three of ten histories the metamodel\'s id_generator is replaced half-way; half of the associations are defined and formalized only after instances exist, and between creations a class is edited now and then (attribute retyped or renamed in place, added, removed). Non-trivial = the creation mixes at least two of positional / keyword / '
         'defaulted attributes; distinct by hash of (schema, arguments).')
-ASSUMPTIONS = ['freshness is required among defaulted identifiers only (an explicit id may collide)',
+ASSUMPTIONS = ['freshness is required among the identifiers the generator produced or disclosed through peek() (an id the caller invents may collide with a later default)',
                'user generators yield injective non-zero sequences']
 LEVEL_TEXT = ('Random exploration of creation histories over random schemas and three generator kinds; '
               'every created instance compared with the argument-application model, every defaulted id '
@@ -118,6 +119,7 @@ def run_case(ctx, rng, n_case):
     m = build_api(sch, gen) if route == 'api' else build_loader(sch, gen)
     defaulted = []    # ids handed out as defaults, in order
     instance_ids = set()    # defaulted ids as read from the created instances
+    disclosed = set()       # ids the generator disclosed through peek() and the caller then put into the model
 
     for mc in m.metaclasses.values():
         orig = mc.default_value
@@ -258,13 +260,26 @@ def run_case(ctx, rng, n_case):
         for (a, ty) in attrs:
             if a not in ref and ty.upper() != 'UNIQUE_ID':
                 model[a] = DEFAULT[ty.upper()]
+        disclosed_before = set(disclosed)
+        peeked = gen.peek()
+
+        def given(a, ty):
+            # an id given explicitly is now and then the one the generator disclosed through peek(): it is in the
+            # metamodel from then on, and no later default may repeat it
+            if a in ref:
+                return tgt.Id
+            if ty.upper() == 'UNIQUE_ID' and rng.random() < 0.3:
+                ctx.hit('IdFresh.peeked-id-given-explicitly')
+                disclosed.add(peeked)
+                return peeked
+            return value(rng, ty)
         for (a, ty) in attrs[:npos]:
-            v = tgt.Id if a in ref else value(rng, ty)
+            v = given(a, ty)
             args.append(v)
             model[a] = v
         for (a, ty) in attrs:
             if rng.random() < 0.35:
-                v = tgt.Id if a in ref else value(rng, ty)
+                v = given(a, ty)
                 kwargs[spell(rng, a)] = v
                 model[a] = v
         before = len(log)
@@ -296,6 +311,10 @@ def run_case(ctx, rng, n_case):
                 if got in instance_ids:
                     raise Mismatch('id/repeated', '%s.%s defaulted to %r, an id this metamodel already handed out '
                                    '(attributes of the new instance: %r)' % (kind, a, got, attrs))
+                if got in disclosed_before:
+                    raise Mismatch('id/repeated', '%s.%s defaulted to %r, the id an earlier instance of this metamodel '
+                                   'was given explicitly after the generator had disclosed it through peek()'
+                                   % (kind, a, got))
                 instance_ids.add(got)
         if gkind == 'integer':
             ctx.hit('Generator.integer-sequence')
